@@ -4,7 +4,7 @@ cm_colors.core.optimisation.generate_accessible_color in the harness process.
 
 Every field is a boolean, a short string, an 8-bit triple or an integer < 2^31 (TLC ints are 32 bit).
 """
-import os, sys, math, random, json
+import os, sys, math, random, json, re
 sys.path.insert(0, os.path.dirname(os.path.abspath(__file__)))
 import vlib, refs
 
@@ -155,12 +155,28 @@ def record_one(spec):
     if not valid or not is_rgb_ints(pair.text.rgb) or not is_rgb_ints(pair.bg.rgb):
         return [{"e": "C", "spell": spec.get("spell", "?"), "large": large, "valid": False, "text": [], "bg": [], "raised": ""}]
     t_rgb, b_rgb = tuple(pair.text.rgb), tuple(pair.bg.rgb)
+    # the pair the CALLER gave is what the properties speak about: where a side is an opaque CSS Color 3 value, its meaning is
+    # the CSS one (independent exact reader, calibrated against CssColor.tla in C07).  The library's own reading is used as long
+    # as it is an admissible reading (rounding ties); otherwise the CSS meaning replaces it and every clause is judged on that
+    css_override = []
+    for side, val in (("text", text), ("bg", bg)):
+        rr = refs.css_parse(val) if isinstance(val, str) else None
+        if rr is not None and rr["alpha"] is None and not (side == "text" and spec.get("comp")):
+            cur = t_rgb if side == "text" else b_rgb
+            if not all(cur[k] in rr["chans"][k] for k in range(3)):
+                fixed = tuple(min(rr["chans"][k], key=lambda v: abs(v - cur[k])) for k in range(3))
+                css_override.append(side)
+                if side == "text":
+                    t_rgb = fixed
+                else:
+                    b_rgb = fixed
     try:
         readable = str(pair.is_readable)
     except Exception as ex:
         readable = "raised:" + type(ex).__name__
     beh.append({"e": "C", "spell": spec.get("spell", "?"), "large": large, "valid": True, "text": list(t_rgb),
-                "bg": list(b_rgb), "raised": "", "readable": readable, "comp": spec.get("comp") or {"kind": "none"}})
+                "bg": list(b_rgb), "raised": "", "readable": readable, "comp": spec.get("comp") or {"kind": "none"},
+                "cssOverride": css_override})
     wit_cache = {}
     for run in spec.get("runs", ALL_RUNS):
         mode, vr = run[0], run[1]
@@ -281,6 +297,16 @@ def spell(c, kind, rnd):
     if kind == "hslfn":
         from_hsl = _rgb_to_hsl_int(c)
         return "hsl(%d, %d%%, %d%%)" % from_hsl
+    if kind == "hslodd":
+        # an hsl() text denoting EXACTLY c (six decimals), its hue written a whole number of turns away (negative / > 360):
+        # equivalent in CSS; near-black and near-grey colours give saturations / lightnesses below 1 %
+        txt = hsl_exact_text(c)
+        if txt is None:
+            return hexs(c)
+        m = re.match(r"hsl\(([-0-9.]+), (.*)\)$", txt)
+        hue = float(m.group(1)) + rnd.choice([-360, -720, 360, -360])
+        alt = "hsl(%.6f, %s)" % (hue, m.group(2))
+        return alt if refs.css_read_opaque(alt) == tuple(c) else txt
     if kind == "hslafn":
         h, s, l = _rgb_to_hsl_int(c)
         return "hsla(%d, %d%%, %d%%, %s)" % (h, s, l, rnd.choice(["0.5", "0.85", "1", "0.4"]))
@@ -297,7 +323,7 @@ def _rgb_to_hsl_int(c):
 
 
 SPELLS = ["hex6", "hex3", "hexnohash", "hexupper", "rgbfn", "rgbpct", "hslfn", "named", "tuple", "list", "rgbafn",
-          "hslafn", "rgbatuple", "tuplesub", "listsub"]
+          "hslafn", "rgbatuple", "tuplesub", "listsub", "hslodd"]
 
 
 def rand_colour(rnd):
